@@ -579,6 +579,31 @@ def _narrow_bits(e) -> Optional[int]:
     return None
 
 
+NARROW_FLOAT = {'float32', 'float16', 'complex64', 'single', 'csingle', 'half', 'f4', 'f2', 'c8', '<f4', '<c8'}
+
+
+def narrow_float_casts(fn: FuncInfo):
+    """(node, dtype): data is converted to a floating / complex type with less than double precision (`.astype(np.complex64)`,
+    `np.asarray(x, dtype=np.float32)`, ...): every later comparison of distances loses the digits beyond ~7."""
+    for n in walk_no_nested(fn.node):
+        if not isinstance(n, ast.Call):
+            continue
+        cand = None
+        if isinstance(n.func, ast.Attribute) and n.func.attr in ('astype', 'view') and n.args:
+            cand = n.args[0]
+        dt = next((k.value for k in n.keywords if k.arg == 'dtype'), None)
+        if dt is not None and norm(n.func).split('.')[-1] in ('array', 'asarray', 'asanyarray', 'ascontiguousarray', 'zeros', 'empty', 'ones', 'full', 'astype'):
+            cand = dt
+        if isinstance(n.func, ast.Attribute) and n.func.attr in NARROW_FLOAT and norm(n.func.value) in ('np', 'numpy') and n.args:
+            yield n, n.func.attr                      # np.complex64(x)
+            continue
+        if cand is None:
+            continue
+        name = cand.attr if isinstance(cand, ast.Attribute) else cand.value.lstrip('<>=|') if isinstance(cand, ast.Constant) and isinstance(cand.value, str) else None
+        if name in NARROW_FLOAT:
+            yield n, name
+
+
 def narrow_index_ranges(fn: FuncInfo):
     """(node, bits, kind): an integer RANGE or a cast of computed integers is given a narrow integer dtype although nothing
     in the expression bounds its values: `np.arange(stop, dtype=np.uint8)` wraps around for stop > 256, `.astype(np.uint8)`
@@ -623,8 +648,7 @@ def check_narrow_index_ranges(ctx, rule: str, module_paths, floor: int = 0) -> i
         mod = M.module(path)
         fns = [f for c in mod.classes.values() for f in c.methods.values()] + list(mod.functions.values())
         for fn in fns:
-            sites = [x for x in walk_no_nested(fn.node) if isinstance(x, ast.Call) and (norm(x.func) in ('np.arange', 'numpy.arange')
-                     or (isinstance(x.func, ast.Attribute) and x.func.attr == 'astype'))]
+            sites = [x for x in walk_no_nested(fn.node) if isinstance(x, ast.Call)]
             if not sites:
                 continue
             construct = fn.qualname
@@ -638,6 +662,11 @@ def check_narrow_index_ranges(ctx, rule: str, module_paths, floor: int = 0) -> i
                               'beyond %d values the entries - and every arithmetic result derived from them, which stays in that dtype - wrap around, so distinct indexes collide' % (norm(node)[:60], bits, 2 ** bits),
                               fn.path, node.lineno, operand='narrow-range')
             deferred += [(fn, h) for h in hits if h[2] == 'cast']
+            for node, name in list(narrow_float_casts(fn))[:1]:
+                ctx.obligation(rule, construct + ':float', False, {'cast': norm(node)[:60]})
+                ctx.violation(rule, construct, '`%s` converts data to %s (about 7 significant digits): distances that differ beyond that are compared as '
+                              'equal, and magnitudes above ~1e7 absorb the constellation altogether' % (norm(node)[:60], name),
+                              fn.path, node.lineno, operand='narrow-float')
     ctx._narrow_casts = deferred
     return n
 
@@ -2146,4 +2175,57 @@ def check_no_alias_inplace(ctx, rule: str, module_paths, floor: int = 0) -> int:
             for node, name, what in hits[:1]:
                 ctx.violation(rule, construct, '`%s` modifies in place the local `%s`, which IS %s: the stored state of its owner changes with it'
                               % (norm(node)[:50], name, what), fn.path, node.lineno, operand='alias-inplace:' + name)
+    return n
+
+
+# ---------------------------------------------------------------------------------------------------------------
+def constructor_bypasses_setter(model, cls):
+    """(store node, attribute, setter, overriding classes): cls.__init__ stores a constructor argument straight into a private
+    attribute for which the class has a PUBLIC setter method that subclasses override (to validate / reshape / derive more
+    state), and it never calls that setter: objects of those subclasses built through the constructor skip the override."""
+    init = cls.methods.get('__init__')
+    if init is None or init.self_name is None:
+        return
+    sn = init.self_name
+    params = set(init.params) - {sn}
+    called = {n.func.attr for n in walk_no_nested(init.node) if isinstance(n, ast.Call) and isinstance(n.func, ast.Attribute)
+              and isinstance(n.func.value, ast.Name) and n.func.value.id == sn}
+    for n in walk_no_nested(init.node):
+        if not (isinstance(n, ast.Assign) and len(n.targets) == 1 and isinstance(n.value, ast.Name) and n.value.id in params):
+            continue
+        t = n.targets[0]
+        if not (isinstance(t, ast.Attribute) and isinstance(t.value, ast.Name) and t.value.id == sn and t.attr.startswith('_')):
+            continue
+        for name, m in cls.methods.items():
+            if name.startswith('_') or m.self_name is None or name == '__init__':
+                continue
+            mp = set(m.params) - {m.self_name}
+            stores = any(isinstance(x, ast.Assign) and any(isinstance(tt, ast.Attribute) and isinstance(tt.value, ast.Name) and tt.value.id == m.self_name
+                                                            and tt.attr == t.attr for tt in x.targets)
+                         and any(isinstance(y, ast.Name) and y.id in mp for y in ast.walk(x.value)) for x in walk_no_nested(m.node))
+            if not stores:
+                continue
+            overriders = [s.name for s in model.subclasses(cls) if name in s.methods]
+            if overriders and name not in called:
+                yield n, t.attr, name, overriders
+
+
+def check_constructor_uses_setter(ctx, rule: str, module_paths, floor: int = 0) -> int:
+    ctx.rule(rule, 'a constructor that receives the value of a private attribute for which subclasses override the public setter method passes it through '
+                   'that setter (virtual call), not only into the attribute', floor=floor)
+    M = ctx.model
+    n = 0
+    for path in module_paths:
+        for c in M.module(path).classes.values():
+            if '__init__' not in c.methods:
+                continue
+            construct = c.name + '.__init__'
+            ctx.instance(rule, construct)
+            n += 1
+            hits = list(constructor_bypasses_setter(M, c))
+            ctx.obligation(rule, construct, not hits, {'bypassed': [(h[1], h[2]) for h in hits]} if hits else None, nontrivial=bool(M.subclasses(c)))
+            for node, attr, setter, over in hits[:1]:
+                ctx.violation(rule, construct, '`%s` stores the constructor argument without calling `%s`, which %s override: an object of those classes '
+                              'built through the constructor skips what the override does (validation, reshaping, derived state)'
+                              % (norm(node)[:50], setter, ', '.join(over)), c.module.path, node.lineno, operand='bypass:' + attr)
     return n
